@@ -382,3 +382,11 @@ def replay(case, seed):
     else:
         run_hist(r, seed, {'scheme': case['scheme'], 'label': case['label'], 'cfg': case['cfg'], 'profile': case['profile']}, 'quick')
     return r['violations']
+
+# a subset of the units is executed again in other environments (child interpreters): see core.run_variants
+ENV_VARIANTS = [{'name': 'rlimit-as-32G', 'rlimit': {'AS': 32 * 2 ** 30}}, {'name': 'python-O', 'flags': ['-O']}]
+
+def variant_units(tier, seed, name):
+    pred = lambda uid, p: p.get('kind') == 'inputs' and p.get('label') == 'base'
+    return [u for u in units('quick', seed) if pred(u[0], u[1])]
+
